@@ -57,7 +57,7 @@ var pureFuncs = map[string]bool{
 	"strconv.Itoa": true, "strconv.FormatInt": true, "strconv.Quote": true,
 	"fmt.Sprintf": true, "fmt.Sprint": true, "fmt.Errorf": true, "errors.New": true,
 	"textproto.CanonicalMIMEHeaderKey": true, "path.Join": true, "path.Clean": true, "path.Base": true, "path.Dir": true,
-	"filepath.FromSlash": true, "filepath.ToSlash": true, "filepath.Join": true, "filepath.Clean": true,
+	"filepath.FromSlash": true, "filepath.ToSlash": true, "filepath.Dir": true, "filepath.Base": true, "filepath.Join": true, "filepath.Clean": true,
 	"url.QueryUnescape": true, "url.QueryEscape": true, "url.PathEscape": true,
 	"net.ParseIP": true, "time.Parse": true, "(time.Time).IsZero": true, "(time.Time).Before": true,
 	"(time.Time).In": true, "(time.Time).Format": true, "(time.Time).UTC": true, "(time.Time).Sub": true,
@@ -210,6 +210,11 @@ func (fx *FuncCtx) callWith(st *State, c *ssa.CallCommon, fv *Val, args []*Val, 
 		if key == "fmt.Sprintf" && len(args) == 2 {
 			if elems, ok := fx.plainVariadic(st, c.Args[1], args[1]); ok {
 				return fx.pureCall(st, "pf$fmt_Sprintf$v", append([]*Val{args[0]}, elems...), resT)
+			}
+		}
+		if (key == "path.Join" || key == "filepath.Join") && len(args) == 1 {
+			if elems, ok := fx.plainVariadic(st, c.Args[0], args[0]); ok {
+				return fx.pureCall(st, "pf$"+sanitize(key)+"$v", elems, resT)
 			}
 		}
 		return fx.pureCall(st, "pf$"+sanitize(key), args, resT)
@@ -618,7 +623,16 @@ func (fx *FuncCtx) applyContract(st *State, ct *Contract, names []string, args [
 				if fv.Fn.Signature.Results().Len() == 1 {
 					crt = fv.Fn.Signature.Results().At(0).Type()
 				}
-				cbRes = fx.applyContract(st, cct, cn, ca, crt, cct.Key, pos, fv.Fn)
+				if ct.InvokesMany {
+					// called any number of times with arguments of the library's choosing: only the frame of the
+					// function value applies (its preconditions are the library's business, its postconditions
+					// describe one call and are not assumed)
+					frameOnly := *cct
+					frameOnly.Requires, frameOnly.Ensures, frameOnly.Lets = nil, nil, nil
+					fx.applyContract(st, &frameOnly, cn, ca, crt, cct.Key, pos, fv.Fn)
+				} else {
+					cbRes = fx.applyContract(st, cct, cn, ca, crt, cct.Key, pos, fv.Fn)
+				}
 			} else {
 				fx.note("function value passed to %s has no contract: its effects are havocked", short)
 				fx.havocAll(st)
@@ -963,7 +977,7 @@ func (fx *FuncCtx) frameCheck(st *State, k int, pos token.Pos) {
 	}
 	sort.Strings(comps)
 	for _, c := range comps {
-		if strings.HasPrefix(c, "RV$") || strings.HasPrefix(c, "G$br_src") || strings.HasPrefix(c, "G$hdr_") {
+		if strings.HasPrefix(c, "RV$") || (strings.HasPrefix(c, "G$br_src") || logGhost(c)) || strings.HasPrefix(c, "G$hdr_") {
 			continue // iteration bookkeeping; the source slice of freshly created readers
 		}
 		now := st.Heap[c]
@@ -1205,7 +1219,7 @@ func (fx *FuncCtx) restoreWhen(st, pre *State, cond string) {
 	keep := st.clone()
 	rest := pre.clone()
 	for c, t := range st.Heap {
-		if strings.HasPrefix(c, "G$rd_pos") || strings.HasPrefix(c, "G$it_") || strings.HasPrefix(c, "G$put_") || strings.HasPrefix(c, "G$part_") || strings.HasPrefix(c, "G$lp_") || strings.HasPrefix(c, "G$dm_") || strings.HasPrefix(c, "G$br_src") || strings.HasPrefix(c, "G$hdr_") {
+		if strings.HasPrefix(c, "G$rd_pos") || strings.HasPrefix(c, "G$it_") || strings.HasPrefix(c, "G$put_") || strings.HasPrefix(c, "G$part_") || strings.HasPrefix(c, "G$lp_") || strings.HasPrefix(c, "G$dm_") || (strings.HasPrefix(c, "G$br_src") || logGhost(c)) || strings.HasPrefix(c, "G$hdr_") {
 			rest.Heap[c] = t
 		}
 	}
@@ -1332,8 +1346,10 @@ func (fx *FuncCtx) plainVariadic(st *State, a ssa.Value, v *Val) ([]*Val, bool) 
 	if !ok || arr.Len() > 6 {
 		return nil, false
 	}
-	it, ok := arr.Elem().Underlying().(*types.Interface)
-	if !ok || it.NumMethods() != 0 {
+	isStr := false
+	if b, ok := arr.Elem().Underlying().(*types.Basic); ok && b.Kind() == types.String {
+		isStr = true // ...string: the operands are stored as they are
+	} else if it, ok := arr.Elem().Underlying().(*types.Interface); !ok || it.NumMethods() != 0 {
 		return nil, false
 	}
 	stores := 0
@@ -1348,6 +1364,10 @@ func (fx *FuncCtx) plainVariadic(st *State, a ssa.Value, v *Val) ([]*Val, bool) 
 				s, ok := rr.(*ssa.Store)
 				if !ok || s.Addr != r {
 					return nil, false
+				}
+				if isStr {
+					stores++
+					continue
 				}
 				mi, ok := s.Val.(*ssa.MakeInterface)
 				if !ok {
@@ -1424,4 +1444,16 @@ func (fx *FuncCtx) restoreGhostsWhen(st, pre *State, cond string, names []string
 		fx.emit("(assert (= " + h + " (ite " + cond + " " + was + " " + now + ")))")
 		st.Heap[comp] = h
 	}
+}
+
+// logGhost: ghost components that record what a library call was given (io.Copy's log) or describe
+// a value created by a library call (the source of a LimitReader, the file behind an open handle).
+// Like br_src they are not part of any function's frame.
+func logGhost(c string) bool {
+	for _, p := range []string{"G$cp_", "G$lim_", "G$mw_", "G$f_fs", "G$f_path", "G$hs_"} {
+		if strings.HasPrefix(c, p) {
+			return true
+		}
+	}
+	return false
 }
